@@ -140,6 +140,53 @@ def gen_cases(rng, tier):
                           'vec': fqeio.random_state(rng, norb, keys, density=0.8, amp=2),
                           'ham': {'cls': 'fop', 'rank': 0, 'entries': terms, 'e0': [0, 0], 'real': False},
                           't': rng.choice([1, 2, -3])})
+    # three-body terms, systematically over the spin pattern of the creator block (every mixed-spin 3-subset of the six
+    # spin orbitals of 3 orbitals) with a random annihilator block of the same spin content, and the mirror image:
+    # the dense route's spin sort (fermionops_tomatrix) must move a beta operator past 0, 1 or 2 alpha operators
+    import itertools
+    nso = 6
+    subsets = [c for c in itertools.combinations(range(nso), 3) if 0 < sum(q % 2 for q in c) < 3]
+    for cr in subsets:
+        nbeta = sum(q % 2 for q in cr)
+        pool = [c for c in itertools.combinations(range(nso), 3) if sum(q % 2 for q in c) == nbeta and c != cr]
+        an = rng.choice(pool)
+        for mirror in (False, True):
+            a, b = (cr, an) if not mirror else (an, cr)
+            ops = [[q, 1] for q in sorted(a, reverse=True)] + [[q, 0] for q in sorted(b, reverse=True)]
+            if rng.random() < 0.5:
+                rng.shuffle(ops)
+            terms = [[ops, 24, 24], [[[q, 1 - d] for q, d in reversed(ops)], 24, -24]]
+            q = rng.randrange(nso)
+            terms.append([[[q, 1], [q, 0]], 24, 0])
+            na, nb = 3 - nbeta if rng.random() < 0.5 else 2, max(nbeta, 2)
+            na = max(na, 3 - nbeta)
+            keys = fqeio.sector_keys(3, 'ns', na + nb, na - nb)
+            cases.append({'kind': 'fop', 'recipe': 'struct_3body', 'norb': 3, 'mode': 'ns', 'n': na + nb, 'sz': na - nb,
+                          'vec': fqeio.random_state(rng, 3, keys, density=1.0, amp=2),
+                          'ham': {'cls': 'fop', 'rank': 0, 'entries': terms, 'e0': [0, 0], 'real': False},
+                          't': rng.choice([1, 2, -3])})
+    # four-body terms likewise (every 4-subset of the six spin orbitals is of mixed spin); sampled in the quick tier
+    subsets4 = list(itertools.combinations(range(nso), 4))
+    if tier == 'quick':
+        subsets4 = rng.sample(subsets4, 5)
+    for cr in subsets4:
+        nbeta = sum(q % 2 for q in cr)
+        pool = [c for c in itertools.combinations(range(nso), 4) if sum(q % 2 for q in c) == nbeta and c != cr]
+        if not pool:
+            continue
+        an = rng.choice(pool)
+        for mirror in ((False, True) if tier != 'quick' else (rng.random() < 0.5,)):
+            a, b = (cr, an) if not mirror else (an, cr)
+            ops = [[q, 1] for q in sorted(a, reverse=True)] + [[q, 0] for q in sorted(b, reverse=True)]
+            terms = [[ops, 24, 24], [[[q, 1 - d] for q, d in reversed(ops)], 24, -24]]
+            q = rng.randrange(nso)
+            terms.append([[[q, 1], [q, 0]], 24, 0])
+            na, nb = max(4 - nbeta, 2), max(nbeta, 2)
+            keys = fqeio.sector_keys(3, 'ns', na + nb, na - nb)
+            cases.append({'kind': 'fop', 'recipe': 'struct_4body', 'norb': 3, 'mode': 'ns', 'n': na + nb, 'sz': na - nb,
+                          'vec': fqeio.random_state(rng, 3, keys, density=1.0, amp=2),
+                          'ham': {'cls': 'fop', 'rank': 0, 'entries': terms, 'e0': [0, 0], 'real': False},
+                          't': rng.choice([1, 2, -3])})
     # gather_nbody_spin_sectors on single operator strings: normal-ordered ones (what the compiler feeds it)
     # and arbitrary ones (the model mirrors the code there too; Sort.gather_unsorted_refuted)
     for k in range(60 if tier == 'quick' else 400):
@@ -301,11 +348,8 @@ def classify(case, mode, bad, got, exp):
         return 'F-C06-constant-only-operator'
     if all('raised' in b and 'not spin complete' in b for b in bad):
         return None
-    if case['mode'] == 'ns' and got.get('compiled_entries'):
-        # the compiled spin-orbital tensor is applied by the single-sector kernels
-        pseudo = {'mode': 'ns', 'norb': case['norb'], 'ham': {'cls': 'gso', 'entries': got['compiled_entries']}}
-        if c01.in_spinorb_single_sector_class(pseudo):
-            return 'F-C01-spinorb-single-sector'
+    # (no F-C01-spinorb-single-sector here: tensors compiled from FermionOperators are symmetrised by
+    #  fermionops_tomatrix and are applied correctly by the single-sector kernels; the class used to mask real failures)
     if d.get('cls') == 'DiagonalCoulomb' and d.get('dim') == 2 * case['norb']:
         return 'F-C06-dc-spinorbital'
     if d.get('cls') == 'SparseHamiltonian' and c01.sparse_normal_orders_to_zero(case):
